@@ -39,6 +39,60 @@ func checkC10(w *World, r *Report) {
 	checkDecoratorState(w, r, "C10.DECOR")
 	checkGetterFinality(w, r, "C10.R2")
 	checkBarExit(w, r, "C10")
+	ruleHandover(w, r, "C10.HANDOVER")
+}
+
+// ruleHandover: on every exit path of the bar loop nothing touches the bar state after it was
+// published (stored into Bar.bs): the ready channel's close is the hand-over point.
+func ruleHandover(w *World, r *Report, rule string) {
+	loop, _, arm := w.barExitArm(r)
+	if loop == nil || arm == nil {
+		return
+	}
+	bad := ""
+	n, over := w.enumPaths(loop, pathOpts{InlineDepth: 3, Start: arm}, func(p *Path) {
+		if bad != "" || p.Exit != "return" {
+			return
+		}
+		iPub := -1
+		for _, ev := range p.Events {
+			if f, _, ok := p.storeField(ev); ok && f.Owner == tBar && f.Name == "bs" {
+				iPub = ev.Idx
+			}
+		}
+		if iPub < 0 {
+			bad = "an exit path does not publish the bar state"
+			return
+		}
+		for _, ev := range p.Events[iPub+1:] {
+			switch x := ev.In.(type) {
+			case *ssa.Store:
+				if f, ok := fieldOf(x.Addr); ok && f.Owner == tBState {
+					bad = "bState." + f.Name + " is written at " + w.instrPos(x) + " after the state was published: getters and the render of the exited bar read it concurrently (data race, non-final values)"
+				}
+			case *ssa.Call:
+				if x.Call.IsInvoke() || (x.Call.StaticCallee() != nil && w.modSet[x.Call.StaticCallee()]) {
+					for _, a := range x.Call.Args {
+						if typeName(a.Type()) == tBState {
+							bad = "the bar state is handed to " + x.Call.String() + " after it was published"
+						}
+					}
+				}
+			case *ssa.UnOp:
+				if f, ok := loadedField(x); ok && f.Owner == tBState && ev.F.Fn == loop {
+					// reads after publication by the owner are harmless only for fields nobody writes post-exit; decorGroups walk must precede
+					if f.Name == "decorGroups" {
+						bad = "the decorators are walked after the state was published"
+					}
+				}
+			}
+		}
+	})
+	if over {
+		r.Undecided(rule, "bar loop exit", w.pos(loop.Pos()), "path cap")
+		return
+	}
+	r.Check(bad == "" && n > 0, rule, "bar loop exit", w.pos(loop.Pos()), "nothing touches the state after publication", bad)
 }
 
 // checkBarFields: Bar.{index,priority} are touched only by the heap role, by flush inside the
